@@ -450,7 +450,12 @@ def r_patterns(c):
         h = m.func(R + "." + helper)
         hs = ast.unparse(h)
         hp = h.args.args[0].arg
-        c.check("TypeCastDropper" not in hs and f"{hp}.expr" in hs, "R19-PATTERN", helper, "matches-the-uncast-expression",
+        casts = [x for x in ast.walk(h) if isinstance(x, ast.Name)
+                 and x.id in ("TypeCast", "TypeCastDropper")] + [
+                     x for x in ast.walk(h) if isinstance(x, ast.Attribute)
+                     and x.attr == "inner_expr" and ast.unparse(x.value) == f"{hp}.expr"
+                     and helper == "_is_idx_lambda_broadcast_op"]
+        c.check(not casts and f"{hp}.expr" in hs, "R19-PATTERN", helper, "matches-the-uncast-expression",
                 m.loc(m.module_of(h), h),
                 f"{helper} strips type casts before matching: a cast (astype) would be "
                 "classified as the operation underneath it and the cast lost")
